@@ -5,19 +5,21 @@
    Transcribed from db_write.go, db_transaction.go, db_compaction.go, db.go
    AS CODED; the Fix* constants switch individual repairs on. *)
 EXTENDS Naturals, FiniteSets, Sequences, TLC
-CONSTANTS Writers, Faults, FixF3, FixF6, FixF7, FixF8, FixF9, LargeBatch, WithClose, Sticky, KComp
+CONSTANTS Writers, Faults, FixF3, FixF6, FixF7, FixF8, FixF9, FixF30, LargeBatch, WithClose, Sticky, KComp, WithSetRO
 VARIABLES pc, lock, commitLk, trLk, tr, closed, errState, faults, poisoned,
           frozen, mcmd, result, tries, kleft
 vars == <<pc, lock, commitLk, trLk, tr, closed, errState, faults, poisoned, frozen, mcmd, result, tries, kleft>>
 \* processes
-T == "T"  M == "M"  C == "C"  K == "K"   \* K: the table-compaction goroutine (KComp commits; runs at any time, also while a transaction is open)
+T == "T"  M == "M"  C == "C"  K == "K"  S == "S"   \* S: a client calling SetReadOnly; "E": the compaction-error goroutine holding the write lock for a read-only DB
+\*   \* K: the table-compaction goroutine (KComp commits; runs at any time, also while a transaction is open)
 Clients == Writers \cup {T}
 NoCmd == [from |-> "none", ack |-> FALSE, st |-> "none"]
 \* mcmd: the (single) outstanding command M is working on; st: "sent" | "acked" | "ackclosed"
 
-Init == /\ pc = [p \in Clients \cup {M, C, K} |->
+Init == /\ pc = [p \in Clients \cup {M, C, K, S} |->
                    IF p \in Writers THEN "start" ELSE IF p = T THEN "t_start"
-                   ELSE IF p = M THEN "m_idle" ELSE IF p = K THEN "k_idle" ELSE IF WithClose THEN "c_idle" ELSE "c_off"]
+                   ELSE IF p = M THEN "m_idle" ELSE IF p = K THEN "k_idle"
+                   ELSE IF p = S THEN (IF WithSetRO THEN "s_start" ELSE "done") ELSE IF WithClose THEN "c_idle" ELSE "c_off"]
         /\ kleft = KComp
         /\ lock = "free" /\ commitLk = "free" /\ trLk = "free" /\ tr = FALSE
         /\ closed = FALSE /\ errState = "none" /\ faults = Faults /\ poisoned = FALSE
@@ -50,6 +52,7 @@ WStart(w) ==
   /\ pc[w] = "start"
   /\ \/ /\ lock = "free" /\ lock' = w /\ Set(w, "w_flush") /\ UNCHANGED result
      \/ /\ closed /\ Set(w, "done") /\ Ret(w, "closed") /\ UNCHANGED lock
+     \/ /\ lock = "E" /\ Set(w, "done") /\ Ret(w, "err") /\ UNCHANGED lock          \* compPerErrC: ErrReadOnly
   /\ UNCHANGED <<commitLk, trLk, tr, closed, errState, faults, poisoned, frozen, mcmd, tries, kleft>>
 \* flush(): either room in memdb, or rotateMem: wait pending flush, newMem, trigger
 WFlush(w) ==
@@ -139,11 +142,26 @@ KCommit ==
 KIdleClose == /\ pc[K] = "k_idle" /\ closed /\ Set(K, "k_done")
               /\ UNCHANGED <<lock, commitLk, trLk, tr, closed, errState, faults, poisoned, frozen, mcmd, result, tries, kleft>>
 
+
+(* ---------------- SetReadOnly: take the write lock, then hand it to the compaction-error goroutine ---------------- *)
+SStart == /\ pc[S] = "s_start"
+          /\ \/ /\ lock = "free" /\ lock' = S /\ Set(S, "s_set")
+             \/ /\ closed /\ Set(S, "done") /\ UNCHANGED lock
+          /\ UNCHANGED <<commitLk, trLk, tr, closed, errState, faults, poisoned, frozen, mcmd, result, tries, kleft>>
+SSet ==   /\ pc[S] = "s_set"
+          /\ \/ /\ ~closed /\ lock' = "E" /\ Set(S, "done")       \* compErrSetC <- ErrReadOnly: the error goroutine owns the lock now
+             \/ /\ closed /\ Set(S, "done")                        \* <-closeC: ErrClosed; as coded (F30) the lock stays taken
+                /\ lock' = IF FixF30 THEN "free" ELSE lock
+          /\ UNCHANGED <<commitLk, trLk, tr, closed, errState, faults, poisoned, frozen, mcmd, result, tries, kleft>>
+ERelease == /\ closed /\ lock = "E" /\ lock' = "free"               \* hasperr: <-closeC, compWriteLocking: release for Close
+            /\ UNCHANGED <<pc, commitLk, trLk, tr, closed, errState, faults, poisoned, frozen, mcmd, result, tries, kleft>>
+
 (* ---------------- transaction user (explicit, or DB.Write with an oversized batch) ---------------- *)
 TStart ==
   /\ pc[T] = "t_start"
   /\ \/ /\ lock = "free" /\ lock' = T /\ Set(T, "t_pre") /\ UNCHANGED result
      \/ /\ closed /\ Set(T, "done") /\ Ret(T, "closed") /\ UNCHANGED lock
+     \/ /\ lock = "E" /\ Set(T, "done") /\ Ret(T, "err") /\ UNCHANGED lock
   /\ UNCHANGED <<commitLk, trLk, tr, closed, errState, faults, poisoned, frozen, mcmd, tries, kleft>>
 \* pre-flush: if memdb non-empty: rotateMem(0,true) = wait pending, newMem, wait again
 TPre ==
@@ -222,6 +240,7 @@ Next == \/ \E w \in Writers : WStart(w) \/ WFlush(w) \/ WRotSend(w) \/ WRotWait(
         \/ TCommit0 \/ TCommitLock \/ TTry \/ TAfterErr
         \/ CBegin \/ CDiscardTx \/ CLock \/ CWait
         \/ KStart \/ KLock \/ KCommit \/ KIdleClose
+        \/ SStart \/ SSet \/ ERelease
 \* With a sticky manifest error the compaction goroutines retry for ever, so behaviours are no longer all finite and
 \* fairness matters: every process keeps running (weak fairness per process), and lock acquisitions are strongly fair
 \* (writeLockC is a channel: blocked senders are served in order; sync.Mutex hands over to a starving waiter).
@@ -230,16 +249,17 @@ MNext == MRun \/ MBuild \/ MCommitLock \/ MCommit \/ MAck \/ MIdleClose \/ MExit
 TNext == TStart \/ TPre \/ TS1 \/ TW1 \/ TNM \/ TS2 \/ TW2 \/ TPreFail \/ TOpen \/ TCommit0 \/ TCommitLock \/ TTry \/ TAfterErr
 CNext == CBegin \/ CDiscardTx \/ CLock \/ CWait
 KNext == KStart \/ KLock \/ KCommit \/ KIdleClose
+SNext == SStart \/ SSet
 Spec == /\ Init /\ [][Next]_vars
         /\ \A w \in Writers : WF_vars(WNext(w)) /\ SF_vars(WStart(w))
-        /\ WF_vars(MNext) /\ WF_vars(TNext) /\ WF_vars(CNext) /\ WF_vars(KNext)
+        /\ WF_vars(MNext) /\ WF_vars(TNext) /\ WF_vars(CNext) /\ WF_vars(KNext) /\ WF_vars(SNext) /\ WF_vars(ERelease) /\ SF_vars(SStart)
         /\ SF_vars(TStart) /\ SF_vars(TCommitLock) /\ SF_vars(MCommitLock) /\ SF_vars(KLock) /\ SF_vars(CLock) /\ SF_vars(CDiscardTx)
 
-ClientsDone == \A p \in Clients : pc[p] = "done"
+ClientsDone == \A p \in Clients \cup {S} : pc[p] = "done"
 CloseDone == pc[C] \in {"c_off", "c_idle", "c_done"}
 \* no state without successors unless everybody is finished
 NoStuck == (~ ENABLED Next) => (ClientsDone /\ CloseDone)
 \* the write lock is never held by a finished client
-NoLeak == \A p \in Clients : pc[p] = "done" => lock # p /\ commitLk # p
+NoLeak == \A p \in Clients \cup {S} : pc[p] = "done" => lock # p /\ commitLk # p
 Live == <>(ClientsDone /\ CloseDone)
 =============================================================================
